@@ -316,6 +316,9 @@ def run_case(case, seed):
     with warnings.catch_warnings():
         warnings.simplefilter("ignore")
         m.fit(dx, dy, dim="time")
+        # accessors are pure queries: asking for the normalised variants first must not change anything read below
+        m.scores(normalized=True)
+        m.components(normalized=False)
         sc1, sc2 = m.scores()
         cp1, cp2 = m.components()
         sv = m.data["singular_values"]
